@@ -236,8 +236,10 @@ STD = [b for b in range(0x21, 0x80)]
 WORDS = ["HELLO", "WORLD", "Test", "captions", "a", "I", "12", "(horn)", "ok?", "yes,", "No.", "[music]", "it's", "x*y", "\\o/", "{z}"]
 
 class Gen:
-    def __init__(self, rng, dbl, pad_p=0.15, ch2_p=0.1):
-        self.rng, self.dbl, self.pad_p, self.ch2_p = rng, dbl, pad_p, ch2_p
+    def __init__(self, rng, dbl, pad_p=0.15, ch2_p=0.1, reuse_p=0.04):
+        self.rng, self.dbl, self.pad_p, self.ch2_p, self.reuse_p = rng, dbl, pad_p, ch2_p, reuse_p
+        self.disp, self.buf = set(), set()
+        self.mode = "pop"      # the decoder starts in pop-on mode
 
     def code(self, w):
         """a control-range word, doubled according to the stream's convention, with optional channel-2 block before it
@@ -289,68 +291,97 @@ class Gen:
     def row_words(self, row, mid=True):
         r = self.rng
         if r.random() < 0.6:
-            ind = r.randrange(8); attr = 0x10 + 2 * ind + (r.random() < 0.15); col = 4 * ind
+            ind = r.randrange(7); attr = 0x10 + 2 * ind + (r.random() < 0.15); col = 4 * ind
         else:
             attr = r.randrange(16); col = 0
         out = self.code(w_pac(row, attr))
         if r.random() < 0.35:
             t = r.randint(1, 3); out += self.code(0x1720 + t); col += t
-        out += self.text_run(min(31 - col, r.choice([6, 12, 20, 31 - col])), mid)
+        out += self.text_run(min(30 - col, r.choice([6, 12, 20, 30 - col])), mid)
         return out
+
+    # The generator keeps track of which rows of the displayed / non-displayed memory hold text, so that a PAC
+    # normally addresses a blank row (what captioning encoders do); with probability `reuse_p` it does not care.
+    def pick_rows(self, n, occupied):
+        r = self.rng
+        free = [x for x in range(1, 16) if x not in occupied]
+        if r.random() < self.reuse_p or len(free) < n:
+            r0 = r.randint(1, 15 - n + 1)
+            return list(range(r0, r0 + n)) if r.random() < 0.8 else sorted(r.sample(range(1, 16), n))
+        runs = [x for x in free if all(x + k in free for k in range(n))]
+        if runs and r.random() < 0.8:
+            r0 = r.choice(runs); return list(range(r0, r0 + n))
+        return sorted(r.sample(free, n))
 
     # ---- pop-on
     def popon(self, t0, ncap, enm_p=0.8):
         r = self.rng; lines = []; t = t0
         for _ in range(ncap):
-            ws = self.code(RCL) if r.random() < 0.9 else []
-            if r.random() < enm_p: ws += self.code(ENM)
-            nrows = r.randint(1, 4); r0 = r.randint(1, 15 - nrows + 1)
-            rows = list(range(r0, r0 + nrows)) if r.random() < 0.8 else sorted(r.sample(range(1, 16), nrows))
+            ws = self.code(RCL) if (r.random() < 0.9 or self.mode != "pop") else []
+            self.mode = "pop"
+            nrows = r.randint(1, 4)
+            if r.random() < enm_p or len(self.buf) > 15 - nrows:
+                ws += self.code(ENM); self.buf = set()
+            rows = self.pick_rows(nrows, self.buf)
             for row in rows: ws += self.row_words(row)
-            if r.random() < 0.4: ws += self.code(EDM)
-            ws += self.code(EOC)
+            self.buf |= set(rows)
+            if r.random() < 0.4: ws += self.code(EDM); self.disp = set()
+            ws += self.code(EOC); self.disp, self.buf = self.buf, self.disp
             lines.append((t, ws)); t += len(ws) + r.randint(3, 50)
             if r.random() < 0.6:
-                ws = self.code(EDM); lines.append((t, ws)); t += len(ws) + r.randint(3, 30)
+                ws = self.code(EDM); self.disp = set(); lines.append((t, ws)); t += len(ws) + r.randint(3, 30)
         return lines, t
 
     # ---- roll-up
     def rollup(self, t0, nlines):
         r = self.rng; lines = []; t = t0
         depth = r.choice([RU2, RU3, RU4]); base = 15 if r.random() < 0.7 else r.randint(4, 15)
+        erased = True; self.mode = "roll"
         for i in range(nlines):
             ws = []
-            if i == 0 or r.random() < 0.5: ws += self.code(depth)
+            if i == 0 or r.random() < 0.5 or (erased and r.random() >= self.reuse_p): ws += self.code(depth)
             ws += self.code(CR)
             col = 0
-            if r.random() < 0.9:
+            if r.random() < 0.9 or i == 0:
                 if r.random() < 0.8:
                     ind = r.randrange(4); attr = 0x10 + 2 * ind; col = 4 * ind
                 else:
                     attr = r.randrange(16)
                 ws += self.code(w_pac(base, attr))
-            ws += self.text_run(min(31 - col, r.choice([8, 16, 28])), mid=r.random() < 0.5)
+            ws += self.text_run(min(30 - col, r.choice([8, 16, 28])), mid=r.random() < 0.5)
+            erased = False
             lines.append((t, ws)); t += len(ws) + r.randint(3, 50)
             if r.random() < 0.1:
-                ws = self.code(EDM); lines.append((t, ws)); t += len(ws) + r.randint(3, 30)
+                ws = self.code(EDM); erased = True; lines.append((t, ws)); t += len(ws) + r.randint(3, 30)
+        self.disp = set(range(1, 16)); self.buf = set()
         return lines, t
 
     # ---- paint-on
     def painton(self, t0, ncap):
         r = self.rng; lines = []; t = t0
         for _ in range(ncap):
-            ws = self.code(RDC)
-            nrows = r.randint(1, 3); r0 = r.randint(1, 15 - nrows + 1)
-            for k in range(nrows):
-                ws += self.row_words(r0 + k, mid=r.random() < 0.4)
+            ws = self.code(RDC); self.mode = "paint"
+            nrows = r.randint(1, 3)
+            if len(self.disp) > 15 - nrows:
+                ws = self.code(EDM) + ws; self.disp = set()
+            rows = self.pick_rows(nrows, self.disp)
+            for row in rows:
+                ws += self.row_words(row, mid=r.random() < 0.4)
+                self.disp.add(row)
                 if r.random() < 0.15: ws += self.code(BS)
                 if r.random() < 0.1: ws += self.code(DER)
                 if r.random() < 0.3:
                     lines.append((t, ws)); t += len(ws) + r.randint(3, 30); ws = []
             if ws: lines.append((t, ws)); t += len(ws) + r.randint(3, 50)
             if r.random() < 0.8:
-                ws = self.code(EDM); lines.append((t, ws)); t += len(ws) + r.randint(3, 30)
+                ws = self.code(EDM); self.disp = set(); lines.append((t, ws)); t += len(ws) + r.randint(3, 30)
         return lines, t
+
+    def clear_all(self, t):
+        """between segments of different modes: erase both memories"""
+        r = self.rng
+        ws = self.code(EDM) + self.code(ENM); self.disp = set(); self.buf = set()
+        return [(t, ws)], t + len(ws) + r.randint(3, 30)
 
 
 def start_frame(rng, df):
@@ -374,12 +405,12 @@ def gen_protocol(rng, kind=None):
     elif kind == "painton": lines, _ = g.painton(t, rng.randint(1, 3))
     else:
         lines = []
-        for _ in range(rng.randint(2, 3)):
+        for i in range(rng.randint(2, 3)):
             k = rng.choice(["popon", "rollup", "painton"])
+            if i > 0:
+                ls, t = g.clear_all(t); lines += ls
             ls, t = (g.popon(t, rng.randint(1, 2)) if k == "popon" else g.rollup(t, rng.randint(2, 3)) if k == "rollup" else g.painton(t, 1))
             lines += ls
-            if rng.random() < 0.7:
-                ws = g.code(EDM); lines.append((t, ws)); t += len(ws) + rng.randint(3, 30)
     st = Stream(kind, df, rng.random() < 0.7, lines); st.dbl = dbl
     return st
 
@@ -422,3 +453,40 @@ def gen_wild(rng):
         if rng.random() < 0.8: out.append("")
         t = max(0, t + rng.randint(-20, 120))
     return Stream("wild", False, False, [], judged=False, raw="\n".join(out))
+
+
+# ------------------------------------------------------------------------------------------------
+# verdict of oracle 2 for one case
+# ------------------------------------------------------------------------------------------------
+NONE_CODE = -1000000000
+T_DUP, T_PADDUP, T_LATE, T_BASE, T_ITAL, T_CLEAR, T_DER, T_SPACE, T_ABOVE, T_NEGCUR, T_CLAMP, T_ROW0, T_OVER = [1 << i for i in range(13)]
+FINDING_OF_FLAG = {T_DUP: "doubled-code-no-frame", T_PADDUP: "previous-word-survives-padding",
+                   T_LATE: "text-shown-from-paragraph-begin", T_BASE: "rollup-base-row-forced-15",
+                   T_ITAL: "midrow-italics-resets-colour", T_CLEAR: "painton-pac-clears-row", T_DER: "der-ignored",
+                   T_SPACE: "painton-space-word-unstyled", T_ABOVE: "region-above-attached",
+                   T_OVER: "overwrite-keeps-element-style", T_NEGCUR: "pac-left-of-row-content", T_CLAMP: "pac-right-of-row-content", T_ROW0: "rollup-text-after-edm-row0"}
+# findings whose effect on the text S does not emulate: a case on which one of them fires and no oracle accepts is
+# attributed to it (the generator produces such streams rarely)
+BLIND_FLAGS = T_NEGCUR | T_CLAMP | T_ROW0
+DEV_FLAGS = T_PADDUP | T_BASE | T_ITAL | T_CLEAR | T_DER
+
+
+def judge(codes):
+    """codes = [strict, lenient(g, view) for g in 0..2 for view in 0..2, trigger flags]
+    -> ('ok', []) | ('known', [finding ids]) | ('violation', first rejected frame of the strict oracle)"""
+    strict, grid, flags = codes[0], codes[1:10], codes[10]
+    if strict == NONE_CODE: return ("ok", [])
+    for g, vw in sorted(((g, vw) for g in range(3) for vw in range(3)), key=lambda x: (x[0] + x[1], x[0])):
+        if grid[3 * g + vw] != NONE_CODE: continue
+        need = []
+        if g == 0 and vw == 0: need.append(DEV_FLAGS)
+        if g == 1: need.append(T_DUP | T_PADDUP)
+        if g == 2: need.append(T_LATE)
+        if vw == 1: need.append(T_SPACE | T_OVER)
+        if vw == 2: need.append(T_ABOVE)
+        if all(flags & n for n in need):
+            adm = DEV_FLAGS | (T_DUP | T_PADDUP if g >= 1 else 0) | (T_LATE if g == 2 else 0) | (T_SPACE | T_OVER if vw >= 1 else 0) | (T_ABOVE if vw == 2 else 0)
+            return ("known", [FINDING_OF_FLAG[f] for f in FINDING_OF_FLAG if flags & adm & f])
+    if flags & BLIND_FLAGS:
+        return ("known", [FINDING_OF_FLAG[f] for f in FINDING_OF_FLAG if flags & BLIND_FLAGS & f])
+    return ("violation", strict)
